@@ -8,7 +8,8 @@ Composition of existing models, ordered by the phase table regenerated from the 
 
 Generator: a state is the record of the answers it will give (`List Shuffle.Draw`); `σ : String → List Shuffle.Draw` is
 `random.seed(<token>)`.  Fragment: options `--seed`/`-S <decimal>` (or the empty token), `-q`, `--quiet`, `-p`, `-v`, `-c`
-and their long forms; input from stdin; everything else is `unsupported`.  Import-free.
+and their long forms; input from stdin or `-i <file>` (content = environment, by the path token), output to stdout or
+`-o <file>`; everything else is `unsupported`.  Import-free.
 -/
 import CnfgenModel.Cli.Run
 import CnfgenModel.Trans.Shuffle
@@ -21,6 +22,8 @@ structure ShTop where
   noFlips : Bool := false
   noVperm : Bool := false
   noCperm : Bool := false
+  input : Option String := none      -- `-i <file>`: the path token (`-` = stdin)
+  output : Option String := none     -- `-o <file>`
   deriving Repr, DecidableEq, Inhabited
 
 /-- the words after the program name; `fuel` = number of words -/
@@ -38,12 +41,21 @@ def parseShTop : Nat → List String → ShTop → Except Outcome ShTop
     else if w == "-p" || w == "--no-polarity-flips" then parseShTop fuel rest { t with noFlips := true }
     else if w == "-v" || w == "--no-variables-permutation" then parseShTop fuel rest { t with noVperm := true }
     else if w == "-c" || w == "--no-clauses-permutation" then parseShTop fuel rest { t with noCperm := true }
+    else if w == "-i" || w == "--input" then
+      match rest with
+      | v :: rest' => parseShTop fuel rest' { t with input := if v == "-" then none else some v }
+      | [] => .error .cliError
+    else if w == "-o" || w == "--output" then
+      match rest with
+      | v :: rest' => parseShTop fuel rest' { t with output := if v == "-" then none else some v }
+      | [] => .error .cliError
     else .error (.unsupported "option")
 
 /-- inputs that are functions of the command line / installation -/
 structure ShWorld where
   inputName : String                     -- `args.input.name` (`<stdin>`)
   baseHeader : List (String × String)    -- generator / copyright / url
+  files : String → Option String := fun _ => none   -- content of the file a path token names (the environment)
 
 structure ShState where
   rng : List Shuffle.Draw
@@ -67,12 +79,22 @@ are the same seed) -/
 def seedKey (ty : String) (tok : String) : String :=
   if ty == "int" then (match decimal? tok with | some i => toString i | none => tok) else tok
 
+/-- `parser.parse_args(argv[1:])`; `type=argparse.FileType('r')` opens the input while parsing: a missing file is an
+argparse error -/
+def shParse (w : ShWorld) (argv : List String) : Except Outcome ShTop :=
+  match parseShTop (argv.length + 1) argv.tail {} with
+  | .error o => .error o
+  | .ok top =>
+    match top.input with
+    | some f => if (w.files f).isNone then .error .cliError else .ok top
+    | none => .ok top
+
 def shArg (fixed : Bool) : Shuffle.Arg := if fixed then .fixed else .shuffle
 
 def shStep (σ : String → List Shuffle.Draw) (w : ShWorld) (t : ToolPhases) (argv : List String) (stdin : String)
     (st : ShState) : Ev → Except Outcome ShState
   | .parse _ =>
-    match parseShTop (argv.length + 1) argv.tail {} with
+    match shParse w argv with
     | .error o => .error o
     | .ok top => .ok { st with top := top }
   | .seed gd a =>
@@ -82,7 +104,10 @@ def shStep (σ : String → List Shuffle.Draw) (w : ShWorld) (t : ToolPhases) (a
       | _, _ => .error (.unsupported "seeding from something else than the seed")
     else .ok st
   | .readInput _ =>
-    match IO.readDimacsText true stdin.toList with
+    let text := match st.top.input with
+      | some f => (w.files f).getD ""
+      | none => stdin
+    match IO.readDimacsText true text.toList with
     | .ok F => .ok { st with input := some F }
     | .error e => .error (.crash e)          -- `ValueError`: reported by main() as "DIMACS ERROR", exit status ≠ 0
   | .shuffle =>
@@ -93,40 +118,44 @@ def shStep (σ : String → List Shuffle.Draw) (w : ShWorld) (t : ToolPhases) (a
       | none => .error .stuck
       | some (.error e, _) => .error (.crash e)
       | some (.ok G, rest) =>
-        let h := ("description", "Formula from DIMACS file " ++ w.inputName) :: w.baseHeader
+        let h := ("description", "Formula from DIMACS file " ++ st.top.input.getD w.inputName) :: w.baseHeader
         .ok { st with rng := rest, used := st.used + (st.rng.length - rest.length),
                       out := some (G, Shuffle.shuffleHeader h) }
   | .output _ => .ok st
   | _ => .error (.unsupported "event")
 
-def shRender (st : ShState) : Outcome :=
+/-- `G.to_file(args.output, …)`: what is written to stdout, and the file written by `-o` (path token, text) -/
+def shRender (st : ShState) : Outcome × List (String × String) :=
   match st.out with
-  | none => .unsupported "output before shuffle"
+  | none => (.unsupported "output before shuffle", [])
   | some (G, hdr) =>
     let h : IO.Header := hdr.map (fun e => (e.1.toList, e.2.toList))
-    .text (String.ofList (IO.renderDimacsText G (if st.top.verbose then some h else none) none))
+    let txt := String.ofList (IO.renderDimacsText G (if st.top.verbose then some h else none) none)
+    match st.top.output with
+    | none => (.text txt, [])
+    | some o => (.text "", [(o, txt)])
 
 /-- the events up to the output that writes to stdout (`to_file`; the `to_dimacs` before it belongs to `mode='string'`
 and changes nothing); result: the text and the number of answers consumed -/
 def shRunFrom (σ : String → List Shuffle.Draw) (w : ShWorld) (t : ToolPhases) (argv : List String) (stdin : String) :
-    List Ev → ShState → Outcome × Nat
-  | [], st => (.unsupported "no output event", st.used)
+    List Ev → ShState → Outcome × Nat × List (String × String)
+  | [], st => (.unsupported "no output event", st.used, [])
   | e :: es, st =>
-    if isOutput e then (shRender st, st.used)
+    if isOutput e then ((shRender st).1, st.used, (shRender st).2)
     else match shStep σ w t argv stdin st e with
-      | .error o => (o, st.used)
+      | .error o => (o, st.used, [])
       | .ok st' => shRunFrom σ w t argv stdin es st'
 
 def shuffleRunTable (σ : String → List Shuffle.Draw) (w : ShWorld) (t : ToolPhases) (argv : List String)
-    (stdin : String) (rng₀ : List Shuffle.Draw) : Outcome × Nat :=
+    (stdin : String) (rng₀ : List Shuffle.Draw) : Outcome × Nat × List (String × String) :=
   shRunFrom σ w t argv stdin t.events { rng := rng₀ }
 
 /-- a run of cnfshuffle as the CURRENT source orders it -/
 def shuffleRun (σ : String → List Shuffle.Draw) (w : ShWorld) (argv : List String) (stdin : String)
-    (rng₀ : List Shuffle.Draw) : Outcome × Nat :=
+    (rng₀ : List Shuffle.Draw) : Outcome × Nat × List (String × String) :=
   match phasesOf "cnfshuffle" with
   | some t => shuffleRunTable σ w t argv stdin rng₀
-  | none => (.unsupported "no phase table", 0)
+  | none => (.unsupported "no phase table", 0, [])
 
 /-- the seed token of a command line of the fragment -/
 def shSeedOf (argv : List String) : Option String :=
